@@ -315,3 +315,34 @@ mod test {
     matched("$A(bar)", "foo(/* A*/bar)", M::Signature);
   }
 }
+
+/// Verification hooks (cargo feature `verif-hooks`): the sibling-list alignment routine
+/// driven directly, one recursion level below `match_node_impl`.
+#[cfg(feature = "verif-hooks")]
+#[doc(hidden)]
+pub mod verif_hooks {
+  use super::*;
+  use crate::meta_var::MetaVarEnv;
+  use std::borrow::Cow;
+
+  /// `match_nodes_impl_recursive(goals, parent.children(), env, strictness)`
+  pub fn match_children_env<'t, D: Doc>(
+    goals: &[PatternNode],
+    parent: &Node<'t, D>,
+    env: &mut Cow<MetaVarEnv<'t, D>>,
+    strictness: &MatchStrictness,
+  ) -> bool {
+    match_nodes_impl_recursive(goals, parent.children(), env, strictness).is_some()
+  }
+
+  /// the same alignment with the `ComputeEnd` aggregator; returns the end offset
+  pub fn match_children_end<'t, D: Doc>(
+    goals: &[PatternNode],
+    parent: &Node<'t, D>,
+    strictness: &MatchStrictness,
+  ) -> Option<usize> {
+    let mut end = crate::match_tree::ComputeEnd(0);
+    match_nodes_impl_recursive(goals, parent.children(), &mut end, strictness)?;
+    Some(end.0)
+  }
+}
